@@ -91,7 +91,7 @@ def run_tlc(module, cfg, workdir=None, workers=None, timeout=1800, env=None, sim
     cmd += list(extra_args)
     cmd.append(module)
     e = dict(os.environ)
-    jo = java_opts or '-Xmx8g'
+    jo = java_opts or '-Xmx8g -Xss64m'
     if dfs:
         jo += ' -Dtlc2.tool.queue.IStateQueue=StateDeque'
     e['JAVA_TOOL_OPTIONS'] = jo
